@@ -3,7 +3,8 @@ right access class.
 
 1. PathWalkMC: TLC explores the kernel walk state machine from every (forest, start directory, path string,
    follow/no-follow) within the bound: terminates, deterministic, equals the operator Resolve, idempotent.
-2. PathWalk_Gen: TLC decodes/enumerates the cases (walk family W, open-flag family K, argument family A).
+2. PathWalk_Gen: TLC decodes/enumerates the cases (walk family W, open-flag family K, argument family A,
+   memory-placement family M: where the string lies relative to a page boundary of the caller's memory).
 3. `pathwalk run`: the forests are materialised; the C probe runs the script twice: directly, reporting the
    kernel's own answer for each (descriptor, name) pair, and under the REAL ptrace runner with a recording
    handler, performing every scripted raw system call.
@@ -87,7 +88,9 @@ def key_of(verdict, o, arg):
         dc = "%s-%s" % (d["lo"], d["hi"])
     if verdict == "class":
         return "class:%s:arg%d:acc%d:%s" % (c["sc"], arg, c["acc"], "+".join(c["fl"]) or "none")
-    return "%s:%s:arg%d:%s:%s" % (verdict, c["sc"], arg, dc, feature(ps))
+    mem = ps.get("mem", {}).get("b", "static")
+    place = "" if mem == "static" else ":@%s%s" % (mem, "+gap" if ps["mem"].get("gap") else "")
+    return "%s:%s:arg%d:%s:%s%s" % (verdict, c["sc"], arg, dc, feature(ps), place)
 
 
 def run(ctx):
@@ -121,7 +124,8 @@ def real_runs(ctx):
 
     # ---- 2. cases: the sampled part + families K, A in one TLC run, the exhaustive block in slices
     n_sel = 1 if ctx.replay else ctx.pick(600, 3000)
-    sel = [[ctx.rng.randrange(1 << 30), ctx.rng.randrange(999983), ctx.rng.randrange(999979)] for _ in range(n_sel)]
+    sel = [[ctx.rng.randrange(1 << 30), ctx.rng.randrange(999983), ctx.rng.randrange(999979), ctx.rng.randrange(999961)]
+           for _ in range(n_sel)]
     kfl = ctx.pick(KFLAGS_Q, KFLAGS_T)
     parts = 0 if (ctx.quick() or ctx.replay) else 3
     jobs = [lambda: ctx.tlc("PathWalk_Gen", cfg=gen_cfg(ctx, True, 0, 1, kfl), files={"sel.ndjson": sel},
@@ -213,6 +217,7 @@ def report(ctx, obs, verdicts, fam):
         "calls the kernel would fail before touching an object (ENOENT/ENOTDIR in the middle, ELOOP, EBADF) and walks that leave the forest top are not judged on the path, only on the class and the number of consultations",
         "calls that do not follow a final symlink: the link's own canonical path or its target's is accepted; not judged on the path when the target cannot be resolved",
         "procfs aliases are judged where the kernel resolves them into the forest (/proc/self/cwd|root|fd/N/..., /proc/thread-self/cwd/... of a single-threaded program); names that stay under /proc (checkProcPath's dangerous/allowed classification) and AT_EMPTY_PATH are outside the forest model",
+        "the placement of the string in the caller's memory (page boundary, unmapped next page) and runs of slashes do not change the kernel's resolution (cross-checked: the truth run places the strings identically)",
         "the handler answers 'ban' for the scripted call so the forest is never modified; the presented path is computed before the answer",
     ]
     if model_bad:
